@@ -62,6 +62,10 @@ pub struct CompactionStream<'a, I: Iterator<Item = Item>, F: StreamFilter = NoFi
     evict_tombstones: bool,
 
     zero_seqnos: bool,
+
+    /// A weak tombstone that survived the draining of its key's expired tail
+    /// and has to be emitted right after the head of that key
+    pending: Option<InternalValue>,
 }
 
 impl<I: Iterator<Item = Item>> CompactionStream<'_, I, NoFilter> {
@@ -77,6 +81,7 @@ impl<I: Iterator<Item = Item>> CompactionStream<'_, I, NoFilter> {
             filter: NoFilter,
             evict_tombstones: false,
             zero_seqnos: false,
+            pending: None,
         }
     }
 }
@@ -91,6 +96,7 @@ impl<'a, I: Iterator<Item = Item>, F: StreamFilter + 'a> CompactionStream<'a, I,
             filter,
             evict_tombstones: self.evict_tombstones,
             zero_seqnos: self.zero_seqnos,
+            pending: self.pending,
         }
     }
 
@@ -114,28 +120,44 @@ impl<'a, I: Iterator<Item = Item>, F: StreamFilter + 'a> CompactionStream<'a, I,
     }
 
     /// Drains the remaining versions of the given key.
-    fn drain_key(&mut self, key: &UserKey) -> crate::Result<()> {
+    ///
+    /// If the oldest drained version is a weak tombstone, the value it cancels out is not
+    /// part of this stream and may live in a deeper table, so (unless tombstones are evicted
+    /// anyway) that tombstone is not dropped, but returned to be emitted after the key's head.
+    fn drain_key(&mut self, key: &UserKey) -> crate::Result<Option<InternalValue>> {
+        let mut last: Option<InternalValue> = None;
+
         loop {
             let Some(next) = self.inner.next_if(|kv| {
                 if let Ok(kv) = kv {
-                    let expired = kv.key.user_key == key;
-
-                    if expired {
-                        if let Some(watcher) = &mut self.dropped_callback {
-                            watcher.on_dropped(kv);
-                        }
-                    }
-
-                    expired
+                    kv.key.user_key == key
                 } else {
                     true
                 }
             }) else {
-                return Ok(());
+                break;
             };
 
-            next?;
+            let next = next?;
+
+            if let Some(prev) = last.replace(next) {
+                if let Some(watcher) = &mut self.dropped_callback {
+                    watcher.on_dropped(&prev);
+                }
+            }
         }
+
+        if let Some(last) = last {
+            if last.key.value_type == ValueType::WeakTombstone && !self.evict_tombstones {
+                return Ok(Some(last));
+            }
+
+            if let Some(watcher) = &mut self.dropped_callback {
+                watcher.on_dropped(&last);
+            }
+        }
+
+        Ok(None)
     }
 }
 
@@ -143,6 +165,10 @@ impl<'a, I: Iterator<Item = Item>, F: StreamFilter + 'a> Iterator for Compaction
     type Item = Item;
 
     fn next(&mut self) -> Option<Self::Item> {
+        if let Some(item) = self.pending.take() {
+            return Some(Ok(item));
+        }
+
         loop {
             let mut head = fail_iter!(self.inner.next()?);
 
@@ -190,7 +216,8 @@ impl<'a, I: Iterator<Item = Item>, F: StreamFilter + 'a> Iterator for Compaction
                     // ...
                 } else if peeked.key.seqno < self.gc_seqno_threshold {
                     if head.key.value_type == ValueType::Tombstone && self.evict_tombstones {
-                        fail_iter!(self.drain_key(&head.key.user_key));
+                        // NOTE: Tombstones are evicted, so nothing survives the draining
+                        let _ = fail_iter!(self.drain_key(&head.key.user_key));
                         continue;
                     }
 
@@ -213,7 +240,8 @@ impl<'a, I: Iterator<Item = Item>, F: StreamFilter + 'a> Iterator for Compaction
 
                     // NOTE: Next item is expired,
                     // so the tail of this user key is entirely expired, so drain it all
-                    fail_iter!(self.drain_key(&head.key.user_key));
+                    // (except for a trailing weak tombstone, whose value may live deeper)
+                    self.pending = fail_iter!(self.drain_key(&head.key.user_key));
                 }
             } else if head.is_tombstone() && self.evict_tombstones {
                 continue;
